@@ -36,4 +36,12 @@ def main():
 
 
 if __name__ == "__main__":
-    main()
+    try:
+        main()
+    except SystemExit:
+        raise
+    except BaseException as e:       # a crash of the machinery is a harness error (exit 2), never a verdict
+        import traceback
+        traceback.print_exc()
+        print(f"HARNESS-ERROR: the check itself failed: {type(e).__name__}: {e}")
+        sys.exit(2)
